@@ -43,6 +43,10 @@ def base_document(ctx):
         comps.append({'stage': 2, 'name': 'last', 'command': {'executable': 'echo', 'arguments': 'stage1.tail:ref stage0.work:ref'},
                       'references': ['stage1.tail:ref', 'stage0.work:ref'],
                       'workflowAttributes': ({'aggregate': True} if repl else {})})
+    # every component builds a private variable out of another private one (no other scope defines `mode`)
+    for i, c in enumerate(comps):
+        c['variables'] = {'mode': 'mode-%d' % i, 'label': '%s-%%(mode)s' % c['name']}
+        c['command']['arguments'] += ' %(label)s'
     doc = {'platforms': ['default', 'p'] if plat else ['default'],
            'variables': {'default': {'global': {'n': 2, 'msg': 'hello'}}},
            'components': comps}
@@ -145,7 +149,12 @@ def inject(ctx, doc, fault, platform='default'):
         parent[key] = repl
         return 'mistyped %s.%s = %r (was %r)' % (comps[ci]['name'], '.'.join(path), repl, v)
     if fault == 'undefined_variable':
-        which = ctx.choice('variable', ['msg', 'n', 'new'])
+        which = ctx.choice('variable', ['msg', 'n', 'new', 'private'])
+        if which == 'private':
+            # remove `mode` from the only scope that defines it for one component (its siblings still define their own)
+            idx = ctx.choice('component', list(range(len(comps))))
+            del comps[idx]['variables']['mode']
+            return 'undefined private variable mode of %s' % comps[idx]['name']
         if which == 'new':
             comps[1]['command']['arguments'] += ' %(undefined_anywhere)s'
         else:
@@ -166,7 +175,25 @@ class _Timeout(Exception):
     pass
 
 
-def load(doc, platform):
+def load(doc, platform, route='package'):
+    if route == 'memory':
+        # the in-memory route of the public API (validation is on by default)
+        def on_alarm(sig, frm):
+            raise _Timeout()
+        old = signal.signal(signal.SIGALRM, on_alarm)
+        signal.alarm(20)
+        try:
+            g = graph.WorkflowGraph.graphFromFlowIR(copy.deepcopy(doc), manifest={}, documents=None, platform=platform, primitive=False)
+            return g, None
+        except _Timeout:
+            return None, 'hang'
+        except BaseException as e:
+            if isinstance(e, (KeyboardInterrupt, SystemExit)):
+                raise
+            return None, e
+        finally:
+            signal.alarm(0)
+            signal.signal(signal.SIGALRM, old)
     d = tempfile.mkdtemp(prefix='verif-c11-')
     try:
         os.makedirs(os.path.join(d, 'conf'))
@@ -199,8 +226,9 @@ def body(ctx):
     platform = ctx.choice('platform', ['default', 'p']) if 'p' in doc['platforms'] else 'default'
     fault = ctx.choice('fault', FAULTS)
     what = inject(ctx, doc, fault, platform)
-    g, err = load(doc, platform)
-    detail = {'fault': fault, 'what': what, 'platform': platform, 'error': (type(err).__name__ + ': ' + str(err)[:300]) if
+    route = ctx.choice('route', ['package', 'memory'])
+    g, err = load(doc, platform, route)
+    detail = {'fault': fault, 'what': what, 'platform': platform, 'route': route, 'error': (type(err).__name__ + ': ' + str(err)[:300]) if
               isinstance(err, BaseException) else err}
     if fault == 'none':
         ctx.check(err is None, 'a well-formed workflow loads', detail)
@@ -251,12 +279,12 @@ def signature(param, assignment, message, detail):
 
 def main(tier, seed, only=None):
     rep = Report('C11', tier, seed)
-    rep.functions = ['storage.ExperimentPackage.packageFromLocation', 'graph.WorkflowGraph.graphFromPackage', 'conf.FlowIRExperimentConfiguration.'
+    rep.functions = ['storage.ExperimentPackage.packageFromLocation', 'graph.WorkflowGraph.graphFromPackage', 'graph.WorkflowGraph.graphFromFlowIR (in-memory route, primitive=False)', 'FlowIR.apply_replicate', 'FlowIRConcrete.instance', 'conf.FlowIRExperimentConfiguration.'
                      '__init__/_initialize/_try_report_errors', 'flowir.validate_object_schema + type_* schemas', 'FlowIR.validate/'
                      'validate_component/validate_references', 'FlowIRConcrete.validate/replicate', 'WorkflowGraph._createCompleteGraph/'
                      'configurationForNode', 'flowir.package_document_load']
     rep.bounds = {'base documents': '2-3 stages, 4-5 components; symbolic presence of replication, a platform override, a third stage; both platforms',
-                  'faults': FAULTS, 'fault position': 'every option path of every component (misspell / mistype), every component (duplicate, self reference), '
+                  'routes': ['package on disk (packageFromLocation + graphFromPackage)', 'in memory (graphFromFlowIR, replicated)'], 'faults': FAULTS, 'undefined variable': 'global msg / n removed, a new undefined reference, or the private variable of one component removed (siblings keep theirs)', 'fault position': 'every option path of every component (misspell / mistype), every component (duplicate, self reference), '
                                                       'every consumed component (drop), every consumer (retarget)'}
     rep.outside = ['options replaced by the override of the selected platform', 'string-typed options given as numbers (any YAML scalar is accepted by design)', 'DOSINI, CWL and DSL front ends', 'faults in DoWhile/Workflow documents', 'more than one fault per document',
                    'instance directories (is_instance=True)']
